@@ -81,8 +81,8 @@ func presetFor(c *Ctx, id string, i int) *HistOpts {
 		o.Gen.InvalidPct = 10
 		o.Gen.MaxTx = 12
 		o.Gen.Evidence, o.Gen.Absent = 0, 0
-		if i%8 == 3 {
-			// one long-lived process: cumulative effects across many blocks (gas pools, caches, journals)
+		if (c.Quick() && i%16 == 3) || (!c.Quick() && i%64 == 3) {
+			// a long-lived process: cumulative effects across many blocks (gas pools, caches, journals)
 			o.Blocks = 150
 			o.Gen.MaxTx = 14
 			w["call"], w["deploy"] = 90, 6
